@@ -173,19 +173,18 @@ def rule_commit_discipline(rep):
     commits = [n for n in tab.walk(t) if n.get("k") == "MethodCall" and n["method"] == "commit" and not n["args"] and ".qe()" in tab.show(n["recv"])]
     everywhere = [n for rel in ("sway-lsp/src/core/session.rs", "sway-lsp/src/handlers/notification.rs", "sway-lsp/src/handlers/request.rs", "forc-pkg/src/pkg.rs")
                   for n in tab.walk(tab.tree(rel)) if n.get("k") == "MethodCall" and n["method"] == "commit" and not n["args"] and ".qe()" in tab.show(n["recv"])]
-    rep.ob("R5-commit-only-in-the-compilation-thread", "qe().commit()", len(commits) == 1 and not everywhere, SS, commits[0]["l"] if commits else 0,
-           f"expected exactly one QueryEngine::commit() call, in the compilation thread; found {len(commits)} in server_state.rs and {len(everywhere)} elsewhere")
-    if len(commits) != 1:
-        return
-    path = _ancestors(t, commits[0])
-    arms = []
-    for i_, n in enumerate(path):
-        if n.get("k") == "Match":
-            arm = [a for a in n["arms"] if path[i_ + 1] is a or any(x is path[-1] for x in tab.walk(a["body"]))]
-            if arm:
-                arms.append((tab.show(n.get("expr") or n.get("scrutinee") or {}), tab.show(arm[0]["pat"])))
-    ok_parse = any("parse_project(" in sc and pat.startswith("Ok") for sc, pat in arms)
-    ok_prog = any(pat.startswith("Some") for sc, pat in arms)
-    rep.ob("R5-commit-only-after-a-successful-compilation", "qe().commit()", ok_parse and ok_prog, SS, commits[0]["l"],
-           f"commit() must sit in the Ok arm of `match parse_project(..)` and the Some arm of the program lookup; enclosing arms: {arms}")
+    rep.ob("R5-commit-only-in-the-compilation-thread", "qe().commit()", bool(commits) and not everywhere, SS, commits[0]["l"] if commits else 0,
+           f"QueryEngine::commit() must only be called by the compilation thread; found {len(commits)} call(s) in server_state.rs and {len(everywhere)} elsewhere")
+    for ci, c in enumerate(commits):
+        path = _ancestors(t, c)
+        arms = []
+        for i_, n in enumerate(path):
+            if n.get("k") == "Match":
+                arm = [a for a in n["arms"] if any(x is c for x in tab.walk(a["body"]))]
+                if arm:
+                    arms.append((tab.show(n.get("expr") or {}), tab.show(arm[0]["pat"])))
+        ok_parse = any("parse_project(" in sc and pat.startswith("Ok") for sc, pat in arms)
+        ok_prog = any(pat.startswith("Some") for sc, pat in arms)
+        rep.ob("R5-commit-only-after-a-successful-compilation", f"qe().commit()#{ci + 1}", ok_parse and ok_prog, SS, c["l"],
+               f"commit() must sit in the Ok arm of `match parse_project(..)` and the Some arm of the program lookup; enclosing arms: {arms}")
 
